@@ -150,6 +150,8 @@ class Ref:
         den = self.size(base, fd) / prefix_f(pd)
         if num == 0:
             return 0.0
+        if den == 0:
+            return math.inf          # e.g. per litre of a mixture without volume
         return num / den
 
     # --- tolerance calculus -----------------------------------------------------------------------------
